@@ -390,9 +390,9 @@ func (w *World) cMsg(p *Packet) string {
 	case dxRequest:
 		return fmt.Sprintf("(MRequest DX %d %d %d %d %s)", w.th(p.Thread), w.th(str("@id")), w.inv(p.PThid), w.did(str("did")), w.cODoc(absDoc(attachedDoc(p.Plain))))
 	case dxResponse:
-		return fmt.Sprintf("(MResponse DX %d %d %s 0)", w.th(p.Thread), w.did(str("did")), w.cODoc(absDoc(attachedDoc(p.Plain))))
+		return fmt.Sprintf("(MResponse DX %d %d %d %s 0)", w.th(p.Thread), w.th(decodedThid(p.Plain)), w.did(str("did")), w.cODoc(absDoc(attachedDoc(p.Plain))))
 	case dxComplete:
-		return fmt.Sprintf("(MComplete DX %d)", w.th(p.Thread))
+		return fmt.Sprintf("(MComplete DX %d %d)", w.th(p.Thread), w.th(decodedThid(p.Plain)))
 	case lcRequest:
 		cd, cdoc := legacyConn(p.Plain["connection"])
 
@@ -400,9 +400,9 @@ func (w *World) cMsg(p *Packet) string {
 	case lcResponse:
 		cd, cdoc, signer := legacySigned(p.Plain["connection~sig"])
 
-		return fmt.Sprintf("(MResponse LC %d %d %s %d)", w.th(p.Thread), w.did(cd), w.cODoc(absDoc(cdoc)), w.key(signer))
+		return fmt.Sprintf("(MResponse LC %d %d %d %s %d)", w.th(p.Thread), w.th(decodedThid(p.Plain)), w.did(cd), w.cODoc(absDoc(cdoc)), w.key(signer))
 	case lcAck:
-		return fmt.Sprintf("(MComplete LC %d)", w.th(p.Thread))
+		return fmt.Sprintf("(MComplete LC %d %d)", w.th(p.Thread), w.th(decodedThid(p.Plain)))
 	case basicType:
 		fd, fok := kidDID(p.FromKey)
 		td, tok := kidDID(p.ToKey)
@@ -545,6 +545,40 @@ func legacySigned(v interface{}) (string, *did.Doc, string) {
 	}
 
 	return id, doc, signer
+}
+
+// foldGet mirrors how Decode (mapstructure) finds a member: the exact name, else the first name equal up to case.
+func foldGet(m map[string]interface{}, name string) interface{} {
+	if v, ok := m[name]; ok {
+		return v
+	}
+
+	var keys []string
+	for k := range m {
+		keys = append(keys, k)
+	}
+
+	sort.Strings(keys)
+
+	for _, k := range keys {
+		if strings.EqualFold(k, name) {
+			return m[k]
+		}
+	}
+
+	return nil
+}
+
+// decodedThid is the thread id the handlers decode from the ~thread decorator.
+func decodedThid(plain map[string]interface{}) string {
+	th, ok := foldGet(plain, "~thread").(map[string]interface{})
+	if !ok {
+		return ""
+	}
+
+	s, _ := foldGet(th, "thid").(string)
+
+	return s
 }
 
 // kidDID mirrors getDIDGivenKey: an envelope key that is a JSON public key whose kid is a DID URL names the DID.
